@@ -5,7 +5,7 @@
   ./selftest.py patch  <file.diff> C01 ...        # apply a seeded change (/verif/seeded/<id>/patch.diff)
   ./selftest.py all                               # every fix: commit against the checks recorded in known_findings.json + every seeded/*/meta.json
 
-The scratch copy lives under /var/tmp/up-mut-<pid> and is removed afterwards. Exit code 0 iff every expected check fired."""
+The scratch copy lives under /var/tmp/vkscratch-<letters> and is removed afterwards. Exit code 0 iff every expected check fired."""
 import json
 import os
 import shutil
@@ -16,17 +16,19 @@ ROOT = os.path.dirname(os.path.abspath(__file__))
 
 
 def scratch():
-    d = f"/var/tmp/up-mut-{os.getpid()}"
+    # letters only: up_test_cases filters problem files by substring of the *full path* (digits / words in the path break it)
+    d = "/var/tmp/vkscratch-" + "".join("abcdefghij"[int(c)] for c in str(os.getpid()))
     if os.path.exists(d):
         shutil.rmtree(d)
     os.makedirs(d)
     shutil.copytree("/repo/unified_planning", os.path.join(d, "unified_planning"), ignore=shutil.ignore_patterns("__pycache__"))
     if os.path.isdir("/repo/up_test_cases"):
-        shutil.copytree("/repo/up_test_cases", os.path.join(d, "up_test_cases"), ignore=shutil.ignore_patterns("__pycache__"))
+        shutil.copytree("/repo/up_test_cases", os.path.join(d, "up_test_cases"), symlinks=True)
     return d
 
 
-def run_checks(d, checks, tier="quick", seed="0"):
+def run_checks(d, checks, tier="quick", seed=None):
+    seed = seed or os.environ.get("VERIF_SEED", "0")
     out = {}
     for c in checks:
         env = dict(os.environ, VK_REPO=d, VERIF_SEED=seed)
